@@ -96,6 +96,31 @@ def in_list(v, xs):
     return any(eq(v, x) for x in xs)
 
 
+# the update operators of the property (the ones the library implements); every other `$name` at
+# the top of an update document must be refused, whether or not a document matches
+KNOWN_OPERATORS = frozenset([
+    '$set', '$unset', '$inc', '$min', '$max', '$push', '$addToSet', '$pull', '$pullAll', '$pop',
+    '$rename', '$currentDate', '$setOnInsert'])
+
+
+def unknown_operators(update):
+    """the top-level `$names` of an update document that are no update operator"""
+    if not isinstance(update, dict):
+        return []
+    return [k for k in update if str(k).startswith('$') and k not in KNOWN_OPERATORS]
+
+
+def addtoset_clause(update):
+    """(path, clause) of a `$addToSet` argument that carries a clause next to `$each` (only
+    `$push` takes `$position` / `$sort` / `$slice`): applying it to a document must be refused"""
+    body = update.get('$addToSet') if isinstance(update, dict) else None
+    if isinstance(body, dict):
+        for p, arg in body.items():
+            if isinstance(arg, dict) and '$each' in arg and len(arg) > 1:
+                return p, [k for k in arg if k != '$each'][0]
+    return None
+
+
 def apply(doc, update, on_insert=False):
     """expected document after applying an operator update (never a replacement)"""
     d = copy.deepcopy(doc)
